@@ -25,6 +25,7 @@ import (
 	_ "verifsim/worlds/trieworld"
 	_ "verifsim/worlds/dlqworld"
 	_ "verifsim/worlds/versionworld"
+	_ "verifsim/worlds/stakechainworld"
 )
 
 var userArgs []string
